@@ -10,6 +10,35 @@ GRID = [0.0, 0.0, 1e-24, 1e-20, 1e-17, 1e-14, 1e-10, 1e-6, 1e-4, 1e-3, 1e-2, 0.0
 
 
 def make_state(rng, kind, L, d):
+    if kind == 'tall-weak':
+        # large local dimension (d^2 > 40), a full-capacity bond next to a bond of dimension 2..3 that carries a WEAK Schmidt value (1e-5 .. 1e-10) in a generic
+        # gauge: the matrix split at that bond is very tall and skinny (7*14 x 2), its small singular value must survive a zero / tiny tolerance
+        d = int(rng.choice([7, 8]))
+        small = int(rng.choice([2, 3]))
+        D = [1, d, 2 * d, small, 1]
+        if rng.random() < 0.5:
+            D = D[::-1]
+        qd = np.zeros(d, dtype=int)
+        psi = ptn.MPS(qd, [np.zeros(Di, dtype=int) for Di in D], fill='random', rng=np.random.default_rng(int(rng.integers(0, 2 ** 31))))
+        cplx = bool(rng.random() < 0.6)
+        i = D.index(small, 1) - 1 if D[3] == small else 1            # tensor whose matricisation towards the small bond is tall
+        c = lambda *sh: rng.normal(size=sh) + (1j * rng.normal(size=sh) if cplx else 0)
+        for j in range(4):
+            psi.A[j] = c(*psi.A[j].shape) / np.sqrt(psi.A[j].shape[0] * psi.A[j].shape[1])
+        weak = np.concatenate([[1.0], 10.0 ** -rng.uniform(5, 10, size=small - 1)])
+        if D[3] == small:
+            T = psi.A[2]
+            M = T.reshape(-1, small)
+            U = np.linalg.qr(M)[0]
+            W = np.linalg.qr(c(small, small))[0]
+            psi.A[2] = ((U * weak) @ W).reshape(T.shape)
+        else:
+            T = psi.A[1]
+            M = T.transpose(1, 0, 2).reshape(small, -1)
+            V = np.linalg.qr(M.conj().T)[0].conj().T
+            W = np.linalg.qr(c(small, small))[0]
+            psi.A[1] = (W @ (weak[:, None] * V)).reshape(small, T.shape[0], T.shape[2]).transpose(1, 0, 2)
+        return psi
     if kind == 'product':
         qd = np.zeros(d, dtype=int)
         return gen.rand_mps(rng, qd, L, 'one')
@@ -47,6 +76,8 @@ def compress_case(ctx, idx, rng):
     while d ** L > 4096:
         L -= 1
     kind = ('product', 'random', 'flat', 'staircase', 'decaying', 'over', 'sectors', 'weak-tail')[idx % 8]
+    if idx % 24 == 15:
+        kind = 'tall-weak'
     psi = make_state(rng, kind, L, d)
     if idx % 9 == 4 and kind in ('random', 'over', 'sectors'):
         # tensors rescaled to LOOK canonical (Frobenius norm^2 = bond dimension, or unit-norm slices) without being isometries
